@@ -54,6 +54,11 @@ func (exec *execCtx) processV2Last(lastID oid.ID) {
 		r.SetLength(exec.collectedHeader.PayloadSize())
 	}
 
+	// the chain is walked from the payload end: start the offset counter there
+	if exec.collectedHeader != nil {
+		exec.curOff = exec.collectedHeader.PayloadSize()
+	}
+
 	if ok := exec.writeCollectedHeader(); ok {
 		exec.overtakePayloadInReverse(lastID)
 	}
